@@ -28,15 +28,16 @@ type Prog struct {
 	Pkgs     []*packages.Package          /* Module packages, sorted by path. */
 	ByPath   map[string]*packages.Package /* Module packages by import path. */
 	SSA      *ssa.Program
-	SSAPkg   map[string]*ssa.Package /* By import path. */
-	AllPkgs  int                     /* Number of packages seen, deps included. */
-	Overlay  map[string][]byte       /* In-memory file replacements (self-test mutants). */
-	funcs    []*ssa.Function         /* Source functions of the module, anons included. */
-	Flat     *ssa.FlattenStats       /* What helper inlining did. */
-	Helpers  []string                /* Helper functions folded into their callers. */
-	Canon    int                     /* Operations rewritten to their canonical spelling. */
-	Unrolled int                     /* Functions in which a loop over a literal table was unrolled. */
-	Devirt   int                     /* Interface calls resolved to the one implementing type. */
+	SSAPkg   map[string]*ssa.Package  /* By import path. */
+	AllPkgs  int                      /* Number of packages seen, deps included. */
+	Overlay  map[string][]byte        /* In-memory file replacements (self-test mutants). */
+	funcs    []*ssa.Function          /* Source functions of the module, anons included. */
+	Flat     *ssa.FlattenStats        /* What helper inlining did. */
+	Helpers  []string                 /* Helper functions folded into their callers. */
+	Canon    int                      /* Operations rewritten to their canonical spelling. */
+	renamed  map[string]*ssa.Function /* reference name → the function which took its place */
+	Unrolled int                      /* Functions in which a loop over a literal table was unrolled. */
+	Devirt   int                      /* Interface calls resolved to the one implementing type. */
 }
 
 // LoadOpts tunes loading.
@@ -184,6 +185,7 @@ func Load(o LoadOpts) (*Prog, error) {
 			add(f)
 		}
 	}
+	p.resolveRenames()
 	if !o.NoFlatten {
 		p.flatten()
 	}
@@ -269,10 +271,15 @@ func isHelper(f *ssa.Function) bool {
 	case "main", "init":
 		return false
 	}
-	if foldedRefFuncs[f.String()] {
+	name := f.String()
+	if ref, ok := renameImage[f]; ok {
+		name = ref /* the reference function, under another name */
+	}
+	if foldedRefFuncs[name] {
 		return true
 	}
-	return !refFuncs[f.String()]
+	_, isRef := refInfo[name]
+	return !isRef
 }
 
 // foldedRefFuncs: functions of the reference tree which the rules prefer to
